@@ -415,6 +415,28 @@ func gen(args []string) {
 			emit(dcase("", false, 0, append(append([]byte("a:1|c\n"), l[:len(l)-10]...), '\n')), "long-datagram", true)
 		}
 	}
+	// bodies that inflate to tens of MiB (a few series with names of 2 MiB each: small on the wire, highly compressible):
+	// whatever the endpoint does about large bodies, a body the libraries can read is answered, and accepted
+	{
+		big := &pb.RawMessageV2{Counters: map[string]*pb.CounterTagV2{}}
+		for j := 0; j < 24; j++ {
+			big.Counters[strings.Repeat("a", 2<<20)+strconv.Itoa(j)] = &pb.CounterTagV2{TagMap: map[string]*pb.RawCounterV2{"": {Value: 1}}}
+		}
+		plain, _ := proto.Marshal(big)
+		for _, enc := range []string{"deflate", "lz4"} {
+			emit(hcase("r", enc, true, compress(enc, plain)), "http-large-body", true)
+		}
+	}
+	// one parser that meets thousands of distinct tags, names and sources in one datagram (whatever the code keeps per
+	// distinct string - caches, interning tables, pools - is driven past a few thousand entries)
+	{
+		var dg []byte
+		for j := 0; j < 4600+r.Intn(400); j++ {
+			dg = append(dg, fmt.Sprintf("m%d:1|c|#id:%d,host:h%d\n", j%7, j, j)...)
+		}
+		dg = append(dg, "_e{1,1}:t|x|#ev:1,ev:2\n"...)
+		emit(dcase("", false, 0, dg), "many-distinct-tags", true)
+	}
 	for i := 0; i < n; i++ {
 		switch k := r.Intn(10); {
 		case k < 6:
